@@ -2,7 +2,7 @@
    (glyph id, cluster) lists observed from rustybuzz::shape on generated fonts.
    `summary` returns one flat list:
      [k; i_1 .. i_k]            failing global case indices (at most 10)
-     ++ [cases; agree; outside_domain_table; outside_domain_alloc; model_error]
+     ++ [cases; agree; outside_domain_table; outside_domain_alloc; both_fail; evaluation_abandoned]
      ++ [ran_0; chg_0; ran_1; chg_1; ran_2; chg_2; ran_4; chg_4; ran_5; chg_5]   per subtable kind
      ++ [cases whose glyph string differs from the plain cmap mapping] *)
 From Coq Require Import List NArith ZArith Bool.
@@ -12,7 +12,8 @@ Local Open Scope N_scope.
 
 (* what the implementation did: panic, the (gid, cluster) list, or for long outputs (length, digest) *)
 Inductive expect := EPanic | EFull (l : list (N * N)) | EDigest (len h : N).
-Record mcase := mkCase { c_dir : dir; c_level : N; c_text : list (N * N); c_feats : list ufeature; c_out : expect }.
+Record mcase := mkCase { c_dir : dir; c_level : N; c_text : list (N * N); c_feats : list ufeature; c_out : expect;
+                         c_cap : nat (* evaluation cut (iterations of a streaming subtable), 0 = none *) }.
 (* a generated font: the `font` term and its `feat` table (not a field of `font`) *)
 Definition gfont := (font * option feat_table)%type.
 
@@ -30,7 +31,7 @@ Fixpoint pairs_eqb (a b : list (N * N)) : bool :=
 (* 0 agree, 1 disagree, 2 outside domain (table), 3 outside domain (alloc), 4 both fail (model Error, impl panic) *)
 Definition case_code (gf : gfont) (c : mcase) : N * list event * bool :=
   let f := fst gf in
-  match shape_morx_feat f (snd gf) (c_feats c) (c_dir c) (c_level c) (c_text c) with
+  match shape_morx_feat_cap (c_cap c) f (snd gf) (c_feats c) (c_dir c) (c_level c) (c_text c) with
   | Ok sh =>
       let plain := map (fun '(cp, _) => match cmap_lookup f cp with Some g => g | None => 0 end) (c_text c) in
       let moved := negb (nlist_eqb (map fst (sh_glyphs sh)) (if dir_backward (c_dir c) then rev plain else plain)) in
@@ -42,6 +43,7 @@ Definition case_code (gf : gfont) (c : mcase) : N * list event * bool :=
                              sh_events sh, moved)
            | EPanic => (1, sh_events sh, moved)
            end
+  | Error OutOfFuel => (5, [], false)      (* evaluation abandoned at the cut (c_cap): not compared *)
   | Error _ => match c_out c with EPanic => (4, [], false) | _ => (1, [], false) end
   end.
 
@@ -65,7 +67,7 @@ Definition step (f : gfont) (a : acc) (c : mcase) : acc :=
   let '(code, es, moved) := case_code f c in
   let fail := code =? 1 in
   let slot := if code =? 0 then 1%nat else if code =? 2 then 2%nat else if code =? 3 then 3%nat
-              else if code =? 4 then 4%nat else 5%nat in
+              else if code =? 4 then 4%nat else if code =? 5 then 5%nat else 6%nat in
   mkAcc (a_idx a + 1)
         (if (fail && (a_nfail a <? 10)%nat)%bool then a_idx a :: a_fail a else a_fail a)
         (if fail then S (a_nfail a) else a_nfail a)
@@ -73,17 +75,17 @@ Definition step (f : gfont) (a : acc) (c : mcase) : acc :=
         (add_events (a_kinds a) es)
         (if moved then a_moved a + 1 else a_moved a).
 
-Definition acc0 : acc := mkAcc 0 [] O [0; 0; 0; 0; 0; 0] [0; 0; 0; 0; 0; 0; 0; 0; 0; 0] 0.
+Definition acc0 : acc := mkAcc 0 [] O [0; 0; 0; 0; 0; 0; 0] [0; 0; 0; 0; 0; 0; 0; 0; 0; 0] 0.
 
 Definition run_font (a : acc) (fc : gfont * list mcase) : acc := fold_left (step (fst fc)) (snd fc) a.
 
 Definition summary (l : list (gfont * list mcase)) : list N :=
   let a := fold_left run_font l acc0 in
-  (N.of_nat (length (a_fail a)) :: rev (a_fail a)) ++ firstn 5 (a_counts a) ++ a_kinds a ++ [a_moved a].
+  (N.of_nat (length (a_fail a)) :: rev (a_fail a)) ++ firstn 6 (a_counts a) ++ a_kinds a ++ [a_moved a].
 
 (* single-case diagnosis for replays: model output (gid, cluster flattened), ambiguity flags *)
 Definition diagnose (gf : gfont) (c : mcase) : list N :=
-  match shape_morx_feat (fst gf) (snd gf) (c_feats c) (c_dir c) (c_level c) (c_text c) with
+  match shape_morx_feat_cap (c_cap c) (fst gf) (snd gf) (c_feats c) (c_dir c) (c_level c) (c_text c) with
   | Ok sh => 1 :: sh_amb sh :: concat (map (fun '(g, cl) => [g; cl]) (sh_glyphs sh))
   | Error e => [0; N.of_nat (err_code e)]
   end.
